@@ -313,6 +313,12 @@ func (*c05) Execute(ci any) (res any) {
 	if c.Kind == "files" {
 		return c05ExecFiles(c)
 	}
+	if c.Kind == "tree" {
+		return c05ExecTree(c)
+	}
+	if c.Kind == "funcs" {
+		return c05ExecFuncs(c)
+	}
 	files := make([]c05File, len(c.Files))
 	for i, f := range c.Files {
 		files[i] = c05File{Name: f.Name, Data: h.subst(f.Data)}
